@@ -297,6 +297,297 @@ def _bin_eval(f, ths, q):
     raise _BinUnknown("no return reached")
 
 
+class _PctUnknown(Exception):
+    pass
+
+
+def _pct_eval(F, f, values):
+    """Concrete evaluation of one percentile entry point on Python numbers and list iterators. std::nth_element is modelled by its contract
+    only - the selected position holds the k-th order statistic, everything before is not larger, everything after not smaller - and
+    arranges both sides in *descending* order, the least helpful arrangement the contract allows: code that relies on more than the contract
+    (the element after the selected one being the next order statistic, say) is exposed."""
+    import math
+
+    class Ret(Exception):
+        def __init__(self, v):
+            self.v = v
+
+    def is_it(v):
+        return isinstance(v, tuple) and len(v) == 3 and v[0] == "it"
+
+    def call_fn(g, vals, depth):
+        if depth > 8:
+            raise _PctUnknown("recursion")
+        env = {}
+        for p_, v_ in zip(g.params, vals):
+            env[p_["d"]] = v_
+        try:
+            ex(g.body, env, depth)
+        except Ret as r:
+            return r.v
+        return None
+
+    def call_lambda(lam, vals, depth):
+        node, cap = lam[1], lam[2]
+        bodies = F.by_lid.get(node.get("lid"), [])
+        if not bodies:
+            raise _PctUnknown("lambda body not found")
+        g = bodies[0]
+        env = dict(cap)
+        for p_, v_ in zip(g.params, vals):
+            env[p_["d"]] = v_
+        try:
+            ex(g.body, env, depth + 1)
+        except Ret as r:
+            return r.v
+        return None
+
+    def ev(n, env, depth):
+        n = skip(n)
+        if n is None:
+            raise _PctUnknown("empty expression")
+        k = n["k"]
+        c = n.get("c", ())
+        if k == "paren":
+            return ev(c[0], env, depth)
+        if k == "cast":
+            if n.get("ck") == "ToVoid":
+                return None
+            v = ev(c[0], env, depth)
+            t = (n.get("t") or "").replace("const ", "")
+            if isinstance(v, float) and t in ("long", "int", "unsigned long", "unsigned int", "long long", "std::ptrdiff_t", "short"):
+                return int(v)
+            if isinstance(v, int) and not isinstance(v, bool) and t in ("double", "float"):
+                return float(v)
+            return v
+        if k in ("int", "float"):
+            return n["v"]
+        if k == "bool":
+            return bool(n["v"])
+        if k == "ref":
+            if n.get("d") in env:
+                return env[n["d"]]
+            raise _PctUnknown("variable `%s`" % n.get("n"))
+        if k == "construct" and len(c) == 1:
+            return ev(c[0], env, depth)
+        if k == "lambda":
+            cap = {}
+            inits = list(c)
+            for cp in n.get("caps", []):
+                if cp.get("init"):
+                    cap[cp["d"]] = ev(inits.pop(0), env, depth) if inits else None
+                elif cp.get("d") in env:
+                    cap[cp["d"]] = env[cp["d"]]
+            return ("lam", n, cap)
+        if k == "cond":
+            return ev(c[1], env, depth) if ev(c[0], env, depth) else ev(c[2], env, depth)
+        if k == "un":
+            op = n.get("op")
+            if op in ("++", "--"):
+                t = skip(c[0])
+                old = ev(t, env, depth)
+                new = ("it", old[1], old[2] + (1 if op == "++" else -1)) if is_it(old) else old + (1 if op == "++" else -1)
+                if t["k"] != "ref":
+                    raise _PctUnknown(pp(n))
+                env[t["d"]] = new
+                return old if n.get("post") else new
+            v = ev(c[0], env, depth)
+            if op == "*" and is_it(v):
+                return deref(v)
+            if op == "-":
+                return -v
+            if op == "!":
+                return not v
+            raise _PctUnknown(pp(n)[:40])
+        if k == "bin":
+            op = n["op"]
+            if op == "&&":
+                return bool(ev(c[0], env, depth)) and bool(ev(c[1], env, depth))
+            if op == "||":
+                return bool(ev(c[0], env, depth)) or bool(ev(c[1], env, depth))
+            if op == "=":
+                t = skip(c[0])
+                v = ev(c[1], env, depth)
+                if t["k"] == "ref":
+                    env[t["d"]] = v
+                    return v
+                raise _PctUnknown(pp(n)[:40])
+            a_, b_ = ev(c[0], env, depth), ev(c[1], env, depth)
+            return arith(op, a_, b_, n)
+        if k == "call":
+            q = callee(n)
+            if n.get("ck") == "op":
+                op = n.get("op")
+                if op == "()":
+                    base = ev(c[0], env, depth)
+                    if isinstance(base, tuple) and base and base[0] == "lam":
+                        return call_lambda(base, [ev(x, env, depth) for x in c[1:]], depth)
+                    raise _PctUnknown(pp(n)[:40])
+                if op == "*" and len(c) == 1:
+                    return deref(ev(c[0], env, depth))
+                if op in ("++", "--") and c:
+                    t = skip(c[0])
+                    old = ev(t, env, depth)
+                    if t["k"] != "ref" or not is_it(old):
+                        raise _PctUnknown(pp(n)[:40])
+                    env[t["d"]] = ("it", old[1], old[2] + (1 if op == "++" else -1))
+                    return old if len(c) > 1 else env[t["d"]]
+                if len(c) == 2:
+                    return arith(op, ev(c[0], env, depth), ev(c[1], env, depth), n)
+                raise _PctUnknown(pp(n)[:40])
+            a = [x for x in args(n)]
+            if q == "std::distance":
+                x, y = ev(a[0], env, depth), ev(a[1], env, depth)
+                return y[2] - x[2]
+            if q == "std::advance":
+                t = skip(a[0])
+                it_ = ev(t, env, depth)
+                if t["k"] != "ref" or not is_it(it_):
+                    raise _PctUnknown(pp(n)[:40])
+                env[t["d"]] = ("it", it_[1], it_[2] + int(ev(a[1], env, depth)))
+                return None
+            if q in ("std::next", "std::prev"):
+                it_ = ev(a[0], env, depth)
+                d_ = int(ev(a[1], env, depth)) if len(a) > 1 else 1
+                return ("it", it_[1], it_[2] + (d_ if q == "std::next" else -d_))
+            if q == "std::nth_element":
+                b_, m_, e_ = (ev(x, env, depth) for x in a[:3])
+                lst = b_[1]
+                if not (b_[2] <= m_[2] < e_[2] <= len(lst)):
+                    raise _PctUnknown("nth_element(%d, %d, %d) on %d elements" % (b_[2], m_[2], e_[2], len(lst)))
+                seg = sorted(lst[b_[2]:e_[2]])
+                kk = m_[2] - b_[2]
+                lst[b_[2]:e_[2]] = seg[:kk][::-1] + [seg[kk]] + seg[kk + 1:][::-1]
+                return None
+            if q in ("std::sort",):
+                b_, e_ = ev(a[0], env, depth), ev(a[1], env, depth)
+                b_[1][b_[2]:e_[2]] = sorted(b_[1][b_[2]:e_[2]])
+                return None
+            if q in ("std::partial_sort",):
+                b_, m_, e_ = (ev(x, env, depth) for x in a[:3])
+                seg = sorted(b_[1][b_[2]:e_[2]])
+                kk = m_[2] - b_[2]
+                b_[1][b_[2]:e_[2]] = seg[:kk] + seg[kk:][::-1]
+                return None
+            if q in ("std::floor", "floor"):
+                return float(math.floor(ev(a[0], env, depth)))
+            if q in ("std::ceil", "ceil"):
+                return float(math.ceil(ev(a[0], env, depth)))
+            if q in ("std::is_sorted",):
+                return True
+            if q in ("std::min", "std::max") and len(a) == 2:
+                x, y = ev(a[0], env, depth), ev(a[1], env, depth)
+                return min(x, y) if q == "std::min" else max(x, y)
+            tg = F.resolve(n)
+            if tg and not q.startswith("std::"):
+                return call_fn(tg[0], [ev(x, env, depth) for x in a], depth + 1)
+            raise _PctUnknown("call of " + q)
+        raise _PctUnknown(pp(n)[:50])
+
+    def deref(v):
+        if not is_it(v) or not 0 <= v[2] < len(v[1]):
+            raise _PctUnknown("dereference outside the range (position %s of %d)" % (v[2] if is_it(v) else "?", len(v[1]) if is_it(v) else 0))
+        return v[1][v[2]]
+
+    def arith(op, a_, b_, n):
+        if is_it(a_) and is_it(b_):
+            if op == "-":
+                return a_[2] - b_[2]
+            if op in ("==", "!=", "<", "<="):
+                return {"==": a_[2] == b_[2], "!=": a_[2] != b_[2], "<": a_[2] < b_[2], "<=": a_[2] <= b_[2]}[op]
+        if is_it(a_) and not is_it(b_) and op in ("+", "-"):
+            return ("it", a_[1], a_[2] + (int(b_) if op == "+" else -int(b_)))
+        if a_ is None or b_ is None or is_it(a_) or is_it(b_):
+            raise _PctUnknown(pp(n)[:50])
+        if op == "/":
+            if isinstance(a_, int) and isinstance(b_, int):
+                if b_ == 0:
+                    raise _PctUnknown("division by zero")
+                q_ = abs(a_) // abs(b_)
+                return q_ if (a_ >= 0) == (b_ >= 0) else -q_
+            return a_ / b_
+        table = {"+": lambda: a_ + b_, "-": lambda: a_ - b_, "*": lambda: a_ * b_, "<": lambda: a_ < b_, "<=": lambda: a_ <= b_, "==": lambda: a_ == b_,
+                 "!=": lambda: a_ != b_, ">": lambda: a_ > b_, ">=": lambda: a_ >= b_}
+        if op not in table:
+            raise _PctUnknown(pp(n)[:50])
+        return table[op]()
+
+    def ex(s_, env, depth):
+        if s_ is None:
+            return
+        k = s_["k"]
+        if k == "block":
+            for x in s_.get("c", ()):
+                ex(x, env, depth)
+        elif k == "declstmt":
+            for v in s_.get("c", ()):
+                if v is not None and v["k"] == "var":
+                    env[v["d"]] = ev(v["c"][0], env, depth) if v.get("c") else 0
+        elif k == "if":
+            r = s_["r"]
+            if "init" in r:
+                ex(s_["c"][r.index("init")], env, depth)
+            if ev(s_["c"][r.index("cond")], env, depth):
+                ex(s_["c"][r.index("then")], env, depth)
+            elif "else" in r:
+                ex(s_["c"][r.index("else")], env, depth)
+        elif k == "return":
+            raise Ret(ev(s_["c"][0], env, depth) if s_.get("c") else None)
+        else:
+            ev(s_, env, depth)
+
+    return call_fn(f, values, 0)
+
+
+def _percentile_end_to_end(F, R):
+    """percentile / percentile_sorted / median / median_sorted evaluated on concrete lists against the sorted-array definition"""
+    lists = [[4.0], [2.0, 1.0], [5.0, 1.0, 4.0, 2.0, 3.0, 9.0, 7.0, 8.0, 6.0, 0.0], [3.0, 1.0, 3.0, 2.0, 1.0, 3.0, 2.0],
+             [12.0, 0.5, 7.25, 3.0, 9.5, 1.0, 6.5, 4.125, 11.0, 2.0, 8.0, 10.0], [float((7 * i) % 26) for i in range(26)]]
+    pcts = (0.0, 10.0, 25.0, 28.0, 33.0, 50.0, 75.0, 90.0, 100.0)
+
+    def reference(vals, p):
+        import math
+        s_ = sorted(vals)
+        pos = p * (len(s_) - 1) / 100.0
+        lo, hi = int(math.floor(pos)), int(math.ceil(pos))
+        return s_[lo] if lo == hi else (s_[lo] + s_[hi]) / 2
+
+    decided = True
+    for name in ("nano::percentile", "nano::percentile_sorted", "nano::median", "nano::median_sorted"):
+        fs = [f for f in F.functions.values() if f.qn == name and f.relfile == FILES[0] and "double" in f.key]
+        fs = fs or [f for f in F.functions.values() if f.qn == name and f.relfile == FILES[0]]
+        short = name.split("::")[-1]
+        if not fs:
+            R.incomplete("R-C20-3", short + " value", FILES[0] + ":1", "no instantiation of %s in view" % name)
+            decided = False
+            continue
+        f = fs[0]
+        bad = None
+        n = 0
+        try:
+            for vals in lists:
+                for p in (pcts if "percentile" in short else (50.0,)):
+                    lst = sorted(vals) if short.endswith("sorted") else list(vals)
+                    a = [("it", lst, 0), ("it", lst, len(lst))] + ([p] if "percentile" in short else [])
+                    got = _pct_eval(F, f, a)
+                    want = reference(vals, p)
+                    n += 1
+                    if got is None or abs(float(got) - want) > 1e-12:
+                        bad = "%s of %s%s evaluates to %s, the sorted-array definition gives %s" % (short, vals, " at %g%%" % p if "percentile" in short else "", got, want)
+                        break
+                if bad:
+                    break
+        except _PctUnknown as e:
+            R.incomplete("R-C20-3", short + " value", f.loc(), "cannot evaluate %s: %s" % (short, e))
+            decided = False
+            continue
+        R.check(bad is None, "R-C20-3", short + " value", f.loc(),
+                "equals the sorted-array definition (value at p(n-1)/100, midpoint of the two neighbours when fractional) on %d list x percentage cases; nth_element "
+                "modelled by its contract only, with the least helpful arrangement it allows" % n,
+                "%s%s" % (bad, "" if short.endswith("sorted") else " (std::nth_element guarantees the selected position only: what lies after it is not smaller, in no particular order)"))
+    return decided
+
+
 def rule_percentile(F, R):
     fs = [f for f in F.functions.values() if f.qn == "nano::detail::percentile" and f.relfile == FILES[0]]
     R.floor("R-C20-3", len(fs), 3, "percentile instantiations")
@@ -340,60 +631,9 @@ def rule_percentile(F, R):
         R.check(bool(oko), "R-C20-3", inst + " operation order", f.loc(vars_["position"]), "the division by 100 is applied last, to the product p*(n-1)",
                 "the position is evaluated as %s: dividing before multiplying rounds p/100 first, so mathematically integral positions come out one ulp off and the midpoint of two "
                 "neighbours is returned instead of the value at that position (e.g. p=28, n=26)" % (tree,))
-        lp, rp = skip(vars_["lpos"]["c"][0]), skip(vars_["rpos"]["c"][0])
-        def inner_call(n):
-            while n is not None and n["k"] in ("cast",):
-                n = skip(n["c"][0])
-            return n
-        lc, rc = inner_call(lp), inner_call(rp)
-        ok = lc["k"] == "call" and callee(lc) in ("std::floor", "floor") and rc["k"] == "call" and callee(rc) in ("std::ceil", "ceil") and \
-            pp(args(lc)[0]) == "position" and pp(args(rc)[0]) == "position"
-        R.check(ok, "R-C20-3", inst + " neighbours", f.loc(vars_["lpos"]), "lpos = floor(position), rpos = ceil(position)",
-                "neighbour positions are %s / %s" % (pp(lp), pp(rp)))
-        # result: from_position(lpos) if equal else (from(lpos)+from(rpos))/2
-        rets = [x for x in f.nodes() if x["k"] == "return"]
-        txt = sorted(pp(r["c"][0]) for r in rets)
-        cond = [x for x in f.nodes() if x["k"] == "if"]
-        okr = len(rets) == 2 and len(cond) == 1 and pp(cond[0]["c"][cond[0]["r"].index("cond")]) in ("(lpos == rpos)", "(rpos == lpos)")
-        if okr:
-            then = cond[0]["c"][cond[0]["r"].index("then")]
-            els = cond[0]["c"][cond[0]["r"].index("else")]
-            r1 = [x for x in walk(then) if x["k"] == "return"]
-            r2 = [x for x in walk(els) if x["k"] == "return"]
-            okr = len(r1) == 1 and len(r2) == 1 and pp(r1[0]["c"][0]) in ("from_position(lpos)", "from_position(rpos)")
-            if okr:
-                z, det = kalg.compare_expr(f, r2[0]["c"][0], "(fl + fr)/2", atoms={"from_position(lpos)": "fl", "from_position(rpos)": "fr"}, seed=R.seed)
-                okr = bool(z)
-        R.check(okr, "R-C20-3", inst + " result", f.loc(), "exact position -> that value, fractional -> midpoint of the two neighbours",
-                "percentile result rule changed: returns %s" % txt)
-    # sorted / unsorted variants differ only in how a position is fetched; partial sort read at the partition point
-    for name in ("nano::percentile", "nano::percentile_sorted"):
-        fs = [f for f in F.functions.values() if f.qn == name and f.relfile == FILES[0]]
-        for f in fs[:1]:
-            call = [c for c in f.calls(lambda x: callee(x) == "nano::detail::percentile")]
-            okc = len(call) == 1 and [pp(x) for x in args(call[0])[:3]] == ["begin", "end", "percentage"]
-            R.check(okc, "R-C20-3", name.split("::")[-1] + " delegates", f.loc(), "delegates to the shared position rule with (begin, end, percentage)",
-                    "no longer delegates (begin, end, percentage) to the shared rule")
-            for lam, body in F.lambdas_in(f)[:1]:
-                adv = [c for c in body.calls(lambda x: callee(x) == "std::advance")]
-                nth = [c for c in body.calls(lambda x: callee(x) == "std::nth_element")]
-                rets = [x for x in body.nodes() if x["k"] == "return"]
-                okl = len(adv) == 1 and len(rets) == 1 and pp(args(adv[0])[1]) == body.params[0]["n"]
-                if okl:
-                    mid = pp(args(adv[0])[0])
-                    okl = ("(*%s)" % mid) in pp(rets[0]["c"][0])
-                    if name.endswith("percentile") and not name.endswith("sorted"):
-                        okl = okl and len(nth) == 1 and pp(args(nth[0])[1]) == mid and pp(args(nth[0])[0]) == "begin" and pp(args(nth[0])[2]) == "end"
-                R.check(okl, "R-C20-3", name.split("::")[-1] + " from_position", body.loc(),
-                        "reads the element at the requested position" + (" (the partition point of nth_element)" if nth else ""),
-                        "value is not read at the requested position / not at the nth_element partition point")
-    meds = [(n, [f for f in F.functions.values() if f.qn == "nano::" + n and f.relfile == FILES[0]]) for n in ("median", "median_sorted")]
-    for name, fs in meds:
-        for f in fs[:1]:
-            c = [x for x in f.calls(lambda x: callee(x) in ("nano::percentile", "nano::percentile_sorted"))]
-            want = "nano::percentile" + ("_sorted" if name.endswith("sorted") else "")
-            okm = len(c) == 1 and callee(c[0]) == want and literal_value(args(c[0])[2]) == 50
-            R.check(okm, "R-C20-3", name, f.loc(), "median is the 50th percentile of the matching variant", "median no longer is %s(.., 50)" % want)
+    # the value itself: end-to-end evaluation of the four entry points (replaces the comparisons of the neighbour / result / from_position
+    # expressions' text, which reported a correct "select once" refactoring of the sorted variant together with the incorrect one of the unsorted)
+    _percentile_end_to_end(F, R)
 
 
 def rule_sorted(F, R):
